@@ -1,15 +1,16 @@
 /-
-Lemmas about the lexer model (Garnish.Model.Lexer), proved for the model as it is.
+Lemmas about the lexer model (Garnish.Model.Lexer = the lexer with the repair patches lexfix-1..5), proved for the
+model as it is.
 
-* `processChar_ok`: under `Inv` (the two facts the Rust code silently relies on) `process_char` never panics and
-  re-establishes `Inv`; hence neither the `text_column - 1` underflow (lexer.rs:473) nor the byte slices
-  (lexer.rs:669/678) are reachable.
+* `processChar_ok`: under `Inv` (Float state ⇒ `1 ≤ text_column`, the fact the Rust code silently relies on)
+  `process_char` never panics and re-establishes `Inv`; hence the `text_column - 1` underflow (lexer.rs:473) is
+  unreachable.
 * `processChar_frame`: `process_char` increments `characters_lexed` by one and leaves `operator_tree`, `at_end` alone.
 * `lexFull_total`: `lex` never returns `panic` / `fuelOut`; when it returns `Ok` the number of `process_char` calls
   (`characters_lexed`) is `input.length + 1` or `input.length + 2` (the final `'\0'` is pushed through a second time
   when the first `'\0'` produced a token); an `Err` can be returned earlier.
-Assumption on the Unicode tables (`CharClass.Sane`): `'\0'` is neither numeric nor alphanumeric and `'\n'` is not
-numeric; `rustTables_sane` proves it for the generated tables.
+Assumption on the Unicode tables (`CharClass.Sane`): `'\0'` and `'\n'` are neither numeric nor alphanumeric;
+`rustTables_sane` proves it for the generated tables.
 -/
 import Garnish.Model.Lexer
 import Garnish.Gen.CharRanges
@@ -20,16 +21,10 @@ structure CharClass.Sane (cc : CharClass) : Prop where
   nulNumeric : cc.isNumeric '\x00' = false
   nulAlphanumeric : cc.isAlphanumeric '\x00' = false
   nlNumeric : cc.isNumeric '\n' = false
+  nlAlphanumeric : cc.isAlphanumeric '\n' = false
 
 def Inv (s : Lexer) : Prop :=
-  (s.state = .float → 1 ≤ s.textColumn) ∧
-  ((s.state = .spaces ∨ s.state = .subexpression) → ∀ ch ∈ s.currentCharacters, ch.utf8Size = 1)
-
-theorem asciiWs_size {c : Char} (h : isAsciiWhitespace c = true) : c.utf8Size = 1 := by
-  unfold isAsciiWhitespace at h
-  simp at h
-  rcases h with (((h | h) | h) | h) | h <;> subst h <;> decide
-
+  s.state = .float → 1 ≤ s.textColumn
 
 theorem startToken_float (cc : CharClass) (s : Lexer) (c : Char)
     (h : (startToken cc s c).state = .float) : s.state = .float ∧ (startToken cc s c).textColumn = s.textColumn := by
@@ -39,39 +34,17 @@ theorem startToken_float (cc : CharClass) (s : Lexer) (c : Char)
   repeat' split at hr
   all_goals (subst hr; simp_all)
 
-theorem startToken_ws (cc : CharClass) (s : Lexer) (c : Char)
-    (hs : s.state ≠ .spaces ∧ s.state ≠ .subexpression)
-    (h : (startToken cc s c).state = .spaces ∨ (startToken cc s c).state = .subexpression) :
-    (((c = ' ' ∨ c = '\t') ∨ c = '\r') ∨ isAsciiWhitespace c = true) ∧ (startToken cc s c).currentCharacters = [c] := by
-  generalize hr : startToken cc s c = r at h ⊢
-  unfold startToken at hr
-  try simp only [] at hr
-  repeat' split at hr
-  all_goals (subst hr; simp_all [push])
-
-theorem startToken_ws_ascii (cc : CharClass) (s : Lexer) (c : Char)
-    (hs : s.state ≠ .spaces ∧ s.state ≠ .subexpression)
-    (h : (startToken cc s c).state = .spaces ∨ (startToken cc s c).state = .subexpression) :
-    ∀ ch ∈ (startToken cc s c).currentCharacters, ch.utf8Size = 1 := by
-  obtain ⟨h1, h2⟩ := startToken_ws cc s c hs h
-  rw [h2]
-  intro ch hch
-  simp at hch
-  subst hch
-  rcases h1 with ((h1 | h1) | h1) | h1
-  · subst h1; decide
-  · subst h1; decide
-  · subst h1; decide
-  · exact asciiWs_size h1
-
 @[simp] theorem bumpColumn_state (s : Lexer) (c : Char) : (bumpColumn s c).state = s.state := by
   unfold bumpColumn; split <;> rfl
 @[simp] theorem bumpColumn_chars (s : Lexer) (c : Char) : (bumpColumn s c).currentCharacters = s.currentCharacters := by
   unfold bumpColumn; split <;> rfl
-theorem bumpColumn_le (s : Lexer) (c : Char) : s.textColumn ≤ (bumpColumn s c).textColumn := by
-  unfold bumpColumn; split <;> simp
 theorem bumpColumn_ne_nl (s : Lexer) (c : Char) (h : c ≠ '\n') : (bumpColumn s c).textColumn = s.textColumn + 1 := by
   unfold bumpColumn; simp [h]
+
+theorem sane_ne_nl {cc : CharClass} (hcc : cc.Sane) {c : Char}
+    (h : (cc.isNumeric c || c == '_' || cc.isAlphanumeric c) = true) : c ≠ '\n' := by
+  intro hc; subst hc
+  simp [hcc.nlNumeric, hcc.nlAlphanumeric] at h
 
 /-- what an arm must guarantee: if no new token is started, the invariant holds after the column increment -/
 def ArmGood (c : Char) (p : Lexer × Bool) : Prop :=
@@ -79,24 +52,10 @@ def ArmGood (c : Char) (p : Lexer × Bool) : Prop :=
 
 theorem armNoToken_good (cc : CharClass) (s : Lexer) (c : Char) (hs : s.state = .noToken) :
     ArmGood c (armNoToken cc s c) := by
-  refine ⟨fun _ => ⟨fun h => ?_, fun h => ?_⟩, fun h => by simp [armNoToken] at h⟩
-  · simp [armNoToken] at h
-    have := (startToken_float cc s c h).1
-    simp [hs] at this
-  · simp [armNoToken] at h ⊢
-    exact startToken_ws_ascii cc s c (by simp [hs]) h
-
-theorem ascii_or {cs : List Char} {x : Char} (hi : ∀ ch ∈ cs, ch.utf8Size = 1) (hx : x.utf8Size = 1) :
-    ∀ ch, ch ∈ cs ∨ ch = x → ch.utf8Size = 1 := by
-  intro ch h
-  rcases h with h | h
-  · exact hi ch h
-  · subst h; exact hx
-
-theorem sp_tab_size {c : Char} (h : ¬c = ' ' → c = '\t') : c.utf8Size = 1 := by
-  by_cases h2 : c = ' '
-  · subst h2; decide
-  · have := h h2; subst this; decide
+  refine ⟨fun _ h => ?_, fun h => by simp [armNoToken] at h⟩
+  simp [armNoToken] at h
+  have := (startToken_float cc s c h).1
+  simp [hs] at this
 
 theorem numeric_bump {cc : CharClass} (hcc : cc.Sane) (s : Lexer) {c : Char} (h : cc.isNumeric c = true) :
     1 ≤ (bumpColumn s c).textColumn := by
@@ -178,120 +137,36 @@ theorem armLineAnnotation_good (s : Lexer) (c : Char) (hs : s.state = .lineAnnot
   repeat' split at hr
   all_goals (subst hr; simp_all [ArmGood, Inv])
 
-theorem armSpaces_good (s : Lexer) (c : Char) (hs : s.state = .spaces) (hi : Inv s) :
+theorem armSpaces_good (s : Lexer) (c : Char) (hs : s.state = .spaces) :
     ArmGood c (armSpaces s c) := by
   generalize hr : armSpaces s c = r
   unfold armSpaces at hr
   try simp only [] at hr
   repeat' split at hr
-  all_goals (subst hr; simp_all [ArmGood, Inv, push])
-  all_goals first
-    | exact ascii_or hi (by decide)
-    | exact ascii_or hi (sp_tab_size ‹_›)
+  all_goals (subst hr; simp_all [ArmGood, Inv])
 
-theorem utf8Len_ascii : ∀ (cs : List Char), (∀ ch ∈ cs, ch.utf8Size = 1) → utf8Len cs = cs.length
-  | [], _ => rfl
-  | c :: r, h => by
-    have h1 : c.utf8Size = 1 := h c (by simp)
-    have h2 := utf8Len_ascii r (fun ch hch => h ch (by simp [hch]))
-    simp [utf8Len, h1, h2]; omega
-
-theorem splitAtByte_ascii : ∀ (cs : List Char) (n : Nat), (∀ ch ∈ cs, ch.utf8Size = 1) → n ≤ cs.length →
-    (splitAtByte cs n).isSome = true
-  | cs, 0, _, _ => by cases cs <;> simp [splitAtByte]
-  | [], n + 1, _, hn => by simp at hn
-  | c :: r, n + 1, h, hn => by
-    have h1 : c.utf8Size = 1 := h c (by simp)
-    have h2 := splitAtByte_ascii r n (fun ch hch => h ch (by simp [hch])) (by simp at hn; omega)
-    simp only [splitAtByte, h1]
-    have : 1 ≤ n + 1 := by omega
-    simp only [this, if_true]
-    simp only [Nat.add_sub_cancel]
-    cases hsp : splitAtByte r n with
-    | none => simp [hsp] at h2
-    | some p => simp
-
-theorem splitAtByte_mem : ∀ (cs : List Char) (n : Nat) (a b : List Char), splitAtByte cs n = some (a, b) →
-    ∀ ch ∈ b, ch ∈ cs
-  | cs, 0, a, b, h => by
-    cases cs <;> simp [splitAtByte] at h <;> (obtain ⟨_, rfl⟩ := h; intro ch hch; exact hch)
-  | [], n + 1, a, b, h => by simp [splitAtByte] at h
-  | c :: r, n + 1, a, b, h => by
-    simp only [splitAtByte] at h
-    split at h
-    · cases hsp : splitAtByte r (n + 1 - c.utf8Size) with
-      | none => simp [hsp] at h
-      | some p =>
-        obtain ⟨a', b'⟩ := p
-        simp [hsp] at h
-        obtain ⟨_, rfl⟩ := h
-        intro ch hch
-        exact List.mem_cons_of_mem _ (splitAtByte_mem r _ a' b' hsp ch hch)
-    · cases h
-
-/-- the Subexpression arm does not panic (the byte slice is on a char boundary) and is good -/
-theorem armSubexpression_good (s : Lexer) (c : Char) (hs : s.state = .subexpression) (hi : Inv s) :
-    ∃ st, armSubexpression s c = .ok st ∧
-      match st with
-      | .cont s' _ startNew => ArmGood c (s', startNew)
-      | .returnNone s' => Inv s' := by
-  have hascii := hi.2 (Or.inr hs)
-  unfold armSubexpression
-  simp only []
-  split
-  · -- newline-like character
-    rename_i hc
-    have hc1 : c.utf8Size = 1 := asciiWs_size (by simp at hc; exact hc.1)
-    have hall : ∀ ch ∈ push s.currentCharacters c, ch.utf8Size = 1 := by
-      intro ch h; simp [push] at h; rcases h with h | h
-      · exact hascii ch h
-      · subst h; exact hc1
-    by_cases hlen : utf8Len (push s.currentCharacters c) > 2
-    · have hl := utf8Len_ascii _ hall
-      have := splitAtByte_ascii (push s.currentCharacters c) (utf8Len (push s.currentCharacters c) - 2) hall (by omega)
-      cases hsp : splitAtByte (push s.currentCharacters c) (utf8Len (push s.currentCharacters c) - 2) with
-      | none => simp [hsp] at this
-      | some p =>
-        obtain ⟨a, b⟩ := p
-        simp only [hlen, ↓reduceIte]
-        refine ⟨_, rfl, ?_⟩
-        simp only [ArmGood, Inv]
-        refine ⟨fun h => by simp at h, fun _ => ⟨fun h => by simp [hs] at h, fun _ ch hch => ?_⟩⟩
-        exact hall ch (splitAtByte_mem _ _ a b hsp ch hch)
-    · simp only [hlen, ↓reduceIte]
-      refine ⟨_, rfl, ?_⟩
-      simp only [ArmGood, Inv]
-      exact ⟨fun h => by simp at h, fun _ => ⟨fun h => by simp [hs] at h, fun _ ch hch => hall ch hch⟩⟩
-  · split
-    · refine ⟨_, rfl, ?_⟩
-      rename_i hc
-      have hcs : c.utf8Size = 1 := by
-        simp at hc
-        rcases hc with hc | hc <;> subst hc <;> decide
-      simp only [ArmGood, Inv]
-      refine ⟨fun _ => ⟨fun h => by simp at h, fun _ ch hch => ?_⟩, fun h => by simp at h⟩
-      simp [push] at hch
-      exact ascii_or hascii hcs ch hch
-    · refine ⟨_, rfl, ?_⟩
-      simp only [ArmGood, Inv]
-      exact ⟨fun h => by simp at h, fun _ => ⟨fun h => by simp [hs] at h, fun _ ch hch => hascii ch hch⟩⟩
-
-theorem period_not_ws : ¬ (((('.' : Char) = ' ' ∨ ('.' : Char) = '\t') ∨ ('.' : Char) = '\r') ∨ isAsciiWhitespace '.' = true) := by
-  decide
+theorem armSubexpression_good (s : Lexer) (c : Char) (hs : s.state = .subexpression) :
+    ArmGood c (armSubexpression s c) := by
+  generalize hr : armSubexpression s c = r
+  unfold armSubexpression at hr
+  try simp only [] at hr
+  repeat' split at hr
+  all_goals (subst hr; simp_all [ArmGood, Inv])
 
 /-- the Float arm does not panic (uses `1 ≤ text_column`) and is good -/
-theorem armFloat_good (cc : CharClass) (s : Lexer) (c : Char) (hs : s.state = .float) (hi : Inv s) :
+theorem armFloat_good (cc : CharClass) (hcc : cc.Sane) (s : Lexer) (c : Char) (hs : s.state = .float) (hi : Inv s) :
     ∃ st, armFloat cc s c = .ok st ∧
       match st with
       | .cont s' _ startNew => ArmGood c (s', startNew)
       | .returnNone s' => Inv s' := by
-  have hpos : 1 ≤ s.textColumn := hi.1 hs
+  have hpos : 1 ≤ s.textColumn := hi hs
   unfold armFloat
   split
-  · refine ⟨_, rfl, ?_⟩
+  · rename_i hc
+    refine ⟨_, rfl, ?_⟩
     simp only [ArmGood, Inv]
-    refine ⟨fun _ => ⟨fun _ => Nat.le_trans hpos (bumpColumn_le { s with currentCharacters := push s.currentCharacters c } c), fun h => ?_⟩, fun h => by simp at h⟩
-    simp [hs] at h
+    refine ⟨fun _ _ => ?_, fun h => by simp at h⟩
+    rw [bumpColumn_ne_nl _ _ (sane_ne_nl hcc hc)]; omega
   · split
     · rename_i hc
       have hc' : c = '.' := by simp at hc; exact hc.1
@@ -300,34 +175,30 @@ theorem armFloat_good (cc : CharClass) (s : Lexer) (c : Char) (hs : s.state = .f
       simp only [hne, ↓reduceIte]
       generalize hst : startToken cc { s with tokenStartRow := s.textRow } '.' = st
       have hfl := startToken_float cc { s with tokenStartRow := s.textRow } '.'
-      have hws := startToken_ws cc { s with tokenStartRow := s.textRow } '.' (by simp [hs])
-      rw [hst] at hfl hws
-      have hnws : ¬ (st.state = .spaces ∨ st.state = .subexpression) := fun h => period_not_ws (hws h).1
+      rw [hst] at hfl
       split
       · refine ⟨_, rfl, ?_⟩
         simp only [ArmGood, Inv]
-        refine ⟨fun _ => ⟨fun _ => ?_, fun h => ?_⟩, fun h => by simp at h⟩
-        · rw [bumpColumn_ne_nl _ _ (by decide)]; omega
-        · simp at h; exact absurd h hnws
+        refine ⟨fun _ _ => ?_, fun h => by simp at h⟩
+        rw [bumpColumn_ne_nl _ _ (by decide)]; omega
       · refine ⟨_, rfl, ?_⟩
         simp only [Inv]
-        refine ⟨fun h => ?_, fun h => ?_⟩
-        · have := hfl h
-          simp at this
-          simp [this.2]; exact hpos
-        · exact absurd h hnws
+        intro h
+        have := hfl h
+        simp at this
+        simp [this.2]; exact hpos
     · refine ⟨_, rfl, ?_⟩
       simp only [ArmGood]
       exact ⟨fun h => by simp at h, fun _ => hi⟩
 
 theorem Inv_congr {s s' : Lexer} (h1 : s'.state = s.state) (h2 : s'.textColumn = s.textColumn)
-    (h3 : s'.currentCharacters = s.currentCharacters) (h : Inv s) : Inv s' := by
+    (h : Inv s) : Inv s' := by
   unfold Inv at *
-  rw [h1, h2, h3]; exact h
+  rw [h1, h2]; exact h
 
 theorem pushNewToken_returnNone (s : Lexer) (nt : Option LexerToken) (s' : Lexer)
     (h : pushNewToken s nt = .returnNone s') :
-    s'.state = s.state ∧ s'.textColumn = s.textColumn ∧ s'.currentCharacters = s.currentCharacters := by
+    s'.state = s.state ∧ s'.textColumn = s.textColumn := by
   unfold pushNewToken at h
   simp only [] at h
   repeat' split at h
@@ -345,10 +216,10 @@ theorem stateStep_good (cc : CharClass) (hcc : cc.Sane) (s : Lexer) (c : Char) (
   cases hs : s.state <;> simp only [Step.ofPair]
   · exact ⟨_, rfl, armNoToken_good cc s c hs⟩
   · exact ⟨_, rfl, armOperator_good cc hcc s c hs⟩
-  · exact ⟨_, rfl, armSpaces_good s c hs hi⟩
-  · exact armSubexpression_good s c hs hi
+  · exact ⟨_, rfl, armSpaces_good s c hs⟩
+  · exact ⟨_, rfl, armSubexpression_good s c hs⟩
   · exact ⟨_, rfl, armNumber_good cc s c hs⟩
-  · exact armFloat_good cc s c hs hi
+  · exact armFloat_good cc hcc s c hs hi
   · exact ⟨_, rfl, armIdentifier_good cc s c hs⟩
   · exact ⟨_, rfl, armAnnotation_good cc s c hs⟩
   · exact ⟨_, rfl, armLineAnnotation_good s c hs⟩
@@ -366,28 +237,24 @@ theorem finishChar_inv (cc : CharClass) (s : Lexer) (c : Char) (nt : Option Lexe
     simp only [finishChar, ↓reduceIte]
     cases hp : pushNewToken { s with canFloat := !blocksFloat s.currentTokenType } nt with
     | returnNone s' =>
-      obtain ⟨h1, h2, h3⟩ := pushNewToken_returnNone _ _ _ hp
-      exact Inv_congr h1 h2 h3 hi
+      obtain ⟨h1, h2⟩ := pushNewToken_returnNone _ _ _ hp
+      exact Inv_congr h1 h2 hi
     | cont s' nt' b =>
       simp only []
       split
-      · refine ⟨fun h => ?_, fun h => ?_⟩
-        · rw [bumpColumn_state] at h
-          have := (startToken_float cc _ c h).1
-          simp at this
-        · rw [bumpColumn_state] at h
-          rw [bumpColumn_chars]
-          exact startToken_ws_ascii cc _ c (by simp) h
-      · refine ⟨fun h => ?_, fun h => ?_⟩
-        · simp at h
-        · simp at h
+      · intro h
+        rw [bumpColumn_state] at h
+        have := (startToken_float cc _ c h).1
+        simp at this
+      · intro h
+        simp at h
 
 /-- `process_char` never panics and keeps the invariant -/
 theorem processChar_ok (cc : CharClass) (hcc : cc.Sane) (s : Lexer) (c : Char) (hi : Inv s) :
     ∃ s' t, processChar cc s c = .ok (s', t) ∧ Inv s' := by
   unfold processChar
   simp only []
-  have hi1 : Inv { s with charactersLexed := s.charactersLexed + 1 } := Inv_congr rfl rfl rfl hi
+  have hi1 : Inv { s with charactersLexed := s.charactersLexed + 1 } := Inv_congr rfl rfl hi
   obtain ⟨st, hst, hgood⟩ := stateStep_good cc hcc _ c hi1
   rw [hst]
   cases st with
@@ -460,36 +327,20 @@ theorem armFloat_frame (cc : CharClass) (s : Lexer) (c : Char) (st : Step) (h : 
   all_goals simp_all
   all_goals (subst h; simp_all [Step.lexer])
 
-theorem armSubexpression_frame (s : Lexer) (c : Char) (st : Step) (h : armSubexpression s c = .ok st) :
-    Frame s st.lexer := by
-  unfold armSubexpression at h
-  simp only [] at h
-  unfold Frame
-  split at h
-  · split at h
-    · rename_i heq
-      split at heq
-      · split at heq
-        · cases heq
-        · simp at heq
-          obtain ⟨rfl, rfl⟩ := heq
-          simp at h; subst h; simp [Step.lexer]
-      · simp at heq
-        obtain ⟨rfl, rfl⟩ := heq
-        simp at h; subst h; simp [Step.lexer]
-    all_goals cases h
-  · split at h <;> (simp at h; subst h; simp [Step.lexer])
+theorem armSubexpression_frame (s : Lexer) (c : Char) : Frame s (armSubexpression s c).1 := by
+  generalize hr : armSubexpression s c = r
+  frame_tac armSubexpression hr
 
 theorem stateStep_frame (cc : CharClass) (s : Lexer) (c : Char) (st : Step) (h : stateStep cc s c = .ok st) :
     Frame s st.lexer := by
   unfold stateStep at h
   cases hs : s.state <;> rw [hs] at h <;> simp only [Step.ofPair] at h
   case float => exact armFloat_frame cc s c st h
-  case subexpression => exact armSubexpression_frame s c st h
   all_goals (cases h; simp only [Step.lexer])
   · exact startToken_frame cc s c
   · exact armOperator_frame cc s c
   · exact armSpaces_frame s c
+  · exact armSubexpression_frame s c
   · exact armNumber_frame cc s c
   · exact armIdentifier_frame cc s c
   · exact armAnnotation_frame cc s c
@@ -589,6 +440,7 @@ theorem rustTables_sane :
   nulNumeric := by decide +kernel
   nulAlphanumeric := by decide +kernel
   nlNumeric := by decide +kernel
+  nlAlphanumeric := by decide +kernel
 
 theorem startToken_nul (cc : CharClass) (hcc : cc.Sane) (s : Lexer) (ht : TreeOk s.operatorTree)
     (hat : s.atEnd = true) : (startToken cc s '\x00').state = .noToken := by
@@ -605,12 +457,6 @@ theorem stateStep_nul_nt (cc : CharClass) (s s' : Lexer) (nt : Option LexerToken
   case float =>
     unfold armFloat at h
     simp only [] at h
-    repeat' split at h
-    all_goals simp_all
-  case subexpression =>
-    unfold armSubexpression at h
-    have : isAsciiWhitespace '\x00' = false := by decide
-    simp [this] at h
     repeat' split at h
     all_goals simp_all
   all_goals (cases h; rfl)
@@ -680,11 +526,12 @@ theorem lexFinish_total (s : Lexer) (toks : List LexerToken) :
 
 /-- second `'\0'`: the lexer is in `NoToken`, nothing comes out, `lex` finishes -/
 theorem lexEnd_noToken (cc : CharClass) (hcc : cc.Sane) (fuel : Nat) (s : Lexer) (toks : List LexerToken)
-    (hi : Inv s) (hs : s.state = .noToken) :
+    (hi : Inv s) (hs : s.state = .noToken) (hres : s.result = .ok) :
     lexEnd cc (fuel + 1) s toks = .err .syntax ∨
     ∃ toks' s', lexEnd cc (fuel + 1) s toks = .ok (toks', s') ∧ s'.charactersLexed = s.charactersLexed + 1 := by
-  simp only [lexEnd]
-  have hi0 : Inv { s with atEnd := true } := Inv_congr rfl rfl rfl hi
+  have hE : s.result.isErr = false := by rw [hres]; rfl
+  simp only [lexEnd, hE, Bool.false_eq_true, ↓reduceIte]
+  have hi0 : Inv { s with atEnd := true } := Inv_congr rfl rfl hi
   obtain ⟨s1, t1, hp, _⟩ := processChar_ok cc hcc _ '\x00' hi0
   have ht1 := processChar_noToken_none cc _ _ _ _ (by simpa using hs) hp
   subst ht1
@@ -692,8 +539,7 @@ theorem lexEnd_noToken (cc : CharClass) (hcc : cc.Sane) (fuel : Nat) (s : Lexer)
   rw [hp]
   simp only []
   split
-  · rename_i hcond
-    rcases lexFinish_total { s1 with result := .err } toks with h | h
+  · rcases lexFinish_total { s1 with result := .err } toks with h | h
     · exact Or.inl h
     · exact Or.inr ⟨_, _, h, by simpa using hf.2.2⟩
   · rcases lexFinish_total s1 toks with h | h
@@ -704,11 +550,14 @@ theorem lexEnd_total (cc : CharClass) (hcc : cc.Sane) (fuel : Nat) (s : Lexer) (
     (hi : Inv s) (ht : TreeOk s.operatorTree) :
     LexTotal (lexEnd cc (fuel + 2) s toks) s.charactersLexed 0 := by
   rw [show fuel + 2 = (fuel + 1) + 1 from rfl, lexEnd]
-  have hi0 : Inv { s with atEnd := true } := Inv_congr rfl rfl rfl hi
+  by_cases hE : s.result.isErr = true
+  · have : s.result = .err := by cases h : s.result <;> simp [h, LexResult.isErr] at hE ⊢
+    simp [this, LexResult.isErr, lexFinish, LexTotal]
+  simp only [hE, Bool.false_eq_true, ↓reduceIte]
+  have hi0 : Inv { s with atEnd := true } := Inv_congr rfl rfl hi
   obtain ⟨s1, t1, hp, hi1⟩ := processChar_ok cc hcc _ '\x00' hi0
   have hf := processChar_frame cc _ _ _ _ hp
   simp only [] at hf
-  simp only []
   rw [hp]
   cases t1 with
   | none =>
@@ -726,8 +575,8 @@ theorem lexEnd_total (cc : CharClass) (hcc : cc.Sane) (fuel : Nat) (s : Lexer) (
     cases hres : s1.result with
     | err => exact Or.inl rfl
     | ok =>
-      simp only [LexResult.isErr, Bool.false_eq_true, ↓reduceIte]
-      rcases lexEnd_noToken cc hcc fuel s1 (toks ++ [t]) hi1 hs1 with h | ⟨toks', s', h, hn⟩
+      simp only []
+      rcases lexEnd_noToken cc hcc fuel s1 (toks ++ [t]) hi1 hs1 hres with h | ⟨toks', s', h, hn⟩
       · exact Or.inl h
       · refine Or.inr ⟨toks', s', h, Or.inr ?_⟩
         rw [hn, hf.2.2]
@@ -740,6 +589,10 @@ theorem lexLoop_total (cc : CharClass) (hcc : cc.Sane) :
     exact lexEnd_total cc hcc 2 s toks hi ht
   | c :: rest, s, toks, hi, ht => by
     simp only [lexLoop]
+    by_cases hE : s.result.isErr = true
+    · have : s.result = .err := by cases h : s.result <;> simp [h, LexResult.isErr] at hE ⊢
+      simp [this, LexResult.isErr, lexFinish, LexTotal]
+    simp only [hE, Bool.false_eq_true, ↓reduceIte]
     obtain ⟨s1, t1, hp, hi1⟩ := processChar_ok cc hcc s c hi
     have hf := processChar_frame cc _ _ _ _ hp
     have ht1 : TreeOk s1.operatorTree := by rw [hf.1]; exact ht
@@ -758,9 +611,7 @@ theorem lexLoop_total (cc : CharClass) (hcc : cc.Sane) :
       simp only []
       cases hres : s1.result with
       | err => exact Or.inl rfl
-      | ok =>
-        simp only [LexResult.isErr]
-        exact step _
+      | ok => exact step _
 
 /-- `lex` never panics and never runs out of fuel; on `Ok` it has made `input.length + 1` or `input.length + 2`
 calls of `process_char` -/
@@ -771,7 +622,7 @@ theorem lexFull_total (cc : CharClass) (hcc : cc.Sane) (input : List Char) :
   obtain ⟨t, hnew, ht⟩ := new_ok
   unfold lexFull
   rw [hnew]
-  have hinv : Inv (Lexer.init t) := ⟨fun h => by simp [Lexer.init] at h, fun h => by simp [Lexer.init] at h⟩
+  have hinv : Inv (Lexer.init t) := fun h => by simp [Lexer.init] at h
   rcases lexLoop_total cc hcc input (Lexer.init t) [] hinv ht with h | ⟨a, b, h, hn⟩
   · exact Or.inl h
   · refine Or.inr ⟨a, b, h, ?_⟩
